@@ -29,7 +29,7 @@ META = {
         "symmetries.calc_phase_permutation",
     ],
     "floors": {
-        "quick": {"evaluations": 4000, "distinct_nontrivial": 800, "tables": {"op/tensordot": 1500, "op/transpose": 500, "op/matmul": 150, "op/trace": 100, "op/einsum": 150, "parity/odd-involved": 500}},
+        "quick": {"evaluations": 4000, "distinct_nontrivial": 800, "tables": {"op/tensordot": 1500, "op/transpose": 500, "op/matmul": 150, "op/trace": 100, "op/einsum": 150, "parity/odd-involved": 500, "feature/multi-label-operand": 300}},
         "thorough": {"evaluations": 200000, "distinct_nontrivial": 40000, "tables": {"op/tensordot": 80000, "op/transpose": 20000}},
     },
     "exhaustive": {"quick": False, "thorough": False},
@@ -84,7 +84,16 @@ def check_contract(ctx, a, b, axa, axb, mode, tag, via="function"):
 
     sr = ctx.sr
     sym = R.symname(a)
-    ga, gb = G.from_array(a), G.from_array(b)
+    # operands that are themselves results may have dropped different charges from the two
+    # ends of a contracted leg: embed both in the union layout of each pair
+    ra, rb = list(a.indices), list(b.indices)
+    for i, j in zip(axa, axb):
+        cm = dict(a.indices[i].chargemap)
+        for c, d in b.indices[j].chargemap.items():
+            assert cm.setdefault(c, d) == d
+        ra[i] = sr.BlockIndex(cm, dual=a.indices[i].dual)
+        rb[j] = sr.BlockIndex(cm, dual=b.indices[j].dual)
+    ga, gb = G.from_array(a, ra), G.from_array(b, rb)
     exp, lab_exp, _, _, left, right = G.contract(ga, gb, axa, axb, a_parity_fallback=R.par(sym, a.charge))
     ref = [a.indices[i] for i in left] + [b.indices[i] for i in right]
     kw = {"axes": (list(axa), list(axb)), "preserve_array": True}
@@ -136,6 +145,34 @@ def case_random(ctx, rng):
         check_transpose(ctx, x, perm, "random")
         return
     a, b, axa, axb = gen.contractible_pair(sr, rng, sym, True, maxnd=3 if rng.random() < 0.85 else 4, values=vals, maxd=2)
+    if rng.random() < 0.25:
+        # operands that already carry several labels (outer products with a one-element odd
+        # tensor: the product is even / odd with two labels)
+        def dress(x, lab, front):
+            odd = [c for c in gen.POOL[sym] if R.par(sym, c)]
+            c = rng.choice(odd)
+            one = sr.BlockIndex({c: 1}, dual=rng.random() < 0.5)
+            y = gen.make_array(sr, rng, sym, [one], charge=R.signed(sym, c, one.dual), fermionic=True, kind="static" if type(x).static_symmetry else "generic_str", values=vals, label=lab, sparsity=0.0, nphase=0)
+            o_ = ctx.call(sr.tensordot, y, x, axes=0, preserve_array=True) if front else ctx.call(sr.tensordot, x, y, axes=0, preserve_array=True)
+            return o_.value if o_.ok and o_.value.ndim == x.ndim + 1 else None
+
+        which = rng.choice(["a", "b", "both"])
+        if which in ("a", "both") and a.blocks:
+            front = rng.random() < 0.5
+            a2 = dress(a, 700001, front)
+            if a2 is not None:
+                a = a2
+                if front:
+                    axa = [i + 1 for i in axa]
+                ctx.count("feature", "multi-label-operand")
+        if which in ("b", "both") and b.blocks:
+            front = rng.random() < 0.5
+            b2 = dress(b, 700002, front)
+            if b2 is not None:
+                b = b2
+                if front:
+                    axb = [i + 1 for i in axb]
+                ctx.count("feature", "multi-label-operand")
     mode = rng.choice(["fused", "blockwise", "auto", "default"])
     res = check_contract(ctx, a, b, axa, axb, mode, "random", via=rng.choice(["function", "autoray"]))
     if res is not None and res.ndim == 0 and rng.random() < 0.5:
